@@ -5,12 +5,13 @@ import Grass.Calc
 namespace Grass.Calc
 
 theorem size_pos (ρ : Env) (h : ρ.wf) (b : BU) : 0 < b.size ρ := by
-  obtain ⟨h1, h2, h3, h4, h5, h6, h7⟩ := h
-  cases b <;> simp only [BU.size] <;> grind
+  obtain ⟨h1, h2, h3, h4, h5, h6, h7, h8, h9⟩ := h
+  cases b <;> simp only [BU.size, piF] <;> grind
 
 theorem table_ratio (ρ : Env) (to frm : BU) (f : Rat) (h : table to frm = some f) :
     f * to.size ρ = frm.size ρ := by
-  cases to <;> cases frm <;> simp [table] at h <;> subst h <;> simp only [BU.size] <;> grind
+  cases to <;> cases frm <;> simp only [table, reduceCtorEq, Option.some.injEq] at h <;> subst h <;>
+    simp only [BU.size, piF] <;> grind
 
 @[simp] theorem isNone_iff (u : CUnit) : u.isNone = true ↔ u = ⟨[], []⟩ := by
   rcases u with ⟨n, d⟩
